@@ -93,6 +93,52 @@ claim(
     "def-use analysis + regular-grammar ambiguity check (product of the Glushkov automaton with itself)",
 )
 
+claim(
+    "C04",
+    "Clause level: only PENDING rows satisfy the dispatch predicate (truth table) and a stored hash means check, not run; hash jobs apply "
+    "unchanged results only for the CONFIRMED cause; the callers of Step.delete_hash and Workflow.mark_step_pending and the raw writers "
+    "of step.state/step_hash are frozen tables (who may invalidate), so a new invalidation path is reported with its site; full recycle "
+    "keeps state and hash (after_recycle interpreted over StepState x hash present); stat shortcut compares the whole stat signature. "
+    "That no spurious rerun occurs for every reachable database, and cone minimality, are not decided.",
+    STATIC_TB,
+    "who-may-call tables over the resolved call graph + SQL write ownership + truth table + finite-domain interpretation",
+)
+
+claim(
+    "C05",
+    "Clause level: a fixed point over the call graph classifies functions as needs-transaction / opens-transaction; every task entry point "
+    "(21 roots + all RPC handlers) must reach SQL only inside an `async with db` region and no region may nest; job completion, skip and "
+    "dispatch are single regions; every transient state written by dispatch has a startup recovery (folded bound parameters), including "
+    "detached rows; connection pragmas and the open-time check are unconditional. The deletion queue living only in memory while the "
+    "deleting transaction commits first is reported as known finding F5. Equality with the uninterrupted build for every crash point is "
+    "not decided.",
+    STATIC_TB,
+    "transaction-region fixed point over the call graph + path enumeration (same-region) + folded SQL parameters",
+)
+
+claim(
+    "C12",
+    "Clause level: task starts dominated by the slot guard and reachable only from job_loop; launch_command reachable only through "
+    "_run_command <- execute_job <- RunJob.coro and unreachable from skip/validate/hash/promoted paths (who-may-reach); the resource test "
+    "is part of the dispatch statement (read set, RUNNING constant, truth table of the arm) and check-then-claim is one region without "
+    "await; a checkable job cannot run a command. That counts respect the limits at every instant follows from these clauses plus the "
+    "single-threaded event loop, which is assumed, not analysed.",
+    STATIC_TB + " Assumes the single-threaded asyncio loop.",
+    "dominance on all paths + call-graph reachability (who-may-reach) + SQL read set and arm truth table",
+)
+
+claim(
+    "C15",
+    "Clause level, strong: for each of the @allow_rpc handlers the compiled write effects of everything reachable from each `async with "
+    "self.db` block give the number of mutating regions (at most one); queue/wake/defer/mkdir follow-ups must lie after the region; every "
+    "except clause reachable inside a request must re-raise; DBSession's enter/exit/acquire are path-enumerated (BEGIN IMMEDIATE, commit "
+    "iff no exception, rollback otherwise, release on all exits, re-entry rejected before waiting); the receive loop gathers in-flight "
+    "handlers and cancels them only when it fails itself. Covers every rejecting path of every handler at once. Interleavings and SQLite's "
+    "behaviour on commit failure are not decided.",
+    STATIC_TB,
+    "SQL write effects per transaction region over the call graph + effect ordering + exception-flow (handlers end in raise) + path enumeration",
+)
+
 _PENDING = "rules designed in DESIGN.md section 4 but not implemented yet in this session; no claim is made until the check exists"
-for _pid in ["C02", "C04", "C05", "C08", "C11", "C12", "C14", "C15", "C16", "C17", "C19", "C20"]:
+for _pid in ["C02", "C08", "C11", "C14", "C16", "C17", "C19", "C20"]:
     NOT_APPLICABLE[_pid] = _PENDING
